@@ -209,8 +209,11 @@ class Wavefunction:
         return np.abs(self.amplitudes) ** 2
 
     def get_outcome_probs(self) -> Dict[str, float]:
+        # The slice only matters for a register of width 0, where format() still
+        # prints one digit.
         values = [
-            format(i, "0" + str(self.n_qubits) + "b")[::-1] for i in range(len(self))
+            format(i, "0" + str(self.n_qubits) + "b")[::-1][: self.n_qubits]
+            for i in range(len(self))
         ]
 
         probs = self.get_probabilities()
